@@ -302,6 +302,38 @@ fn chains(ctx: &Ctx, pool: &[PoolName], max_depth: usize) {
     }
 }
 
+/// plain names, degenerate character data: text, white-space-only text and empty CDATA sections in
+/// every position of every document of a small space (all four renderings each)
+fn chardata_documents(ctx: &Ctx) {
+    let sp = crate::docspace::Space::new(chardata_cfg(ctx.tier.pick(5, 6)));
+    let res = par_for(
+        sp.len(),
+        ctx.threads,
+        256,
+        Some(ctx.deadline),
+        |_| 0u64,
+        |acc, i| {
+            let d = DocEntry::from_doc(sp.doc(i));
+            if let Ok(el) = run_history(&[&d]) {
+                for preset in [Preset::QuickXml, Preset::SerdeXmlRs] {
+                    for sorted in [false, true] {
+                        if let Ok(text) = subject::guarded(|| subject::render(&el, preset, sorted)) {
+                            ctx.report_all(judge(&[&d], &text, (1 << 57) | i));
+                            *acc += 1;
+                        }
+                    }
+                }
+            }
+        },
+    );
+    let n: u64 = res.accs.iter().sum();
+    ctx.add("evaluations", n);
+    ctx.push("sweeps", json!({"sweep": "degenerate character data over plain names", "space": sp.cfg.describe(), "size": sp.len(), "visited": res.processed, "renderings": n}));
+    if !res.complete {
+        ctx.set("exhaustive", json!(false));
+    }
+}
+
 /// names whose PascalCase forms fold onto each other together with names that equal such a form
 /// plus a number: a disambiguating suffix can collide with a natural name
 pub fn suffix_pool() -> Vec<PoolName> {
@@ -380,6 +412,7 @@ pub fn run(ctx: &Ctx) {
               &TreeParams { min_nodes: 3, max_nodes: 4, max_decorated: 0, root_from_subset: false, shard: (0, 1) }, true);
     }
     two_level_concat(ctx);
+    chardata_documents(ctx);
     sweep(ctx, "numbering pool, 4-subsets, <=4 nodes, <=1 decorated", &numbering_pool(), 4,
           &TreeParams { min_nodes: 2, max_nodes: 4, max_decorated: ctx.tier.pick(0, 1), root_from_subset: false, shard: (0, 1) }, false);
     let concat: Vec<PoolName> = ADV.iter().filter(|p| p.category == "concat").cloned().collect();
